@@ -88,6 +88,12 @@ Proof.
   intros [f1 H1] Hc. fuel f1. simpl. rewrite H1 by lia. destruct c; try discriminate; reflexivity.
 Qed.
 
+Lemma ev_stmts_let_abort d p a r en c en1 :
+  evals d a en (c, en1) -> is_val c = false -> evals_stmts d (SLet p a :: r) en (c, en1).
+Proof.
+  intros [f1 H1] Hc. fuel f1. simpl. rewrite H1 by lia. destruct c; try discriminate; reflexivity.
+Qed.
+
 Lemma ev_stmts_tail d a r en res : evals d a en res -> evals_stmts d (STail a :: r) en res.
 Proof. intros [f1 H1]. fuel f1. simpl. apply H1; lia. Qed.
 
@@ -185,6 +191,20 @@ Lemma ev_arm_miss d v p body r en res :
   pmatch p v = None -> evals_arms d v r en res -> evals_arms d v ((p, body) :: r) en res.
 Proof.
   intros Hp [f1 H1]. fuel f1. simpl. rewrite Hp. apply H1; lia.
+Qed.
+
+Lemma ev_iflet_hit d p s t e en v en1 b c en2 :
+  evals d s en (CVal v, en1) -> pmatch p v = Some b -> evals d t (b ++ en1) (c, en2) ->
+  evals d (EIfLet p s t e) en (c, leave en1 en2).
+Proof.
+  intros [f1 H1] Hp [f2 H2]. fuel (max f1 f2). simpl. rewrite H1 by lia. simpl. rewrite Hp.
+  rewrite H2 by lia. reflexivity.
+Qed.
+
+Lemma ev_iflet_miss d p s t e en v en1 res :
+  evals d s en (CVal v, en1) -> pmatch p v = None -> evals d e en1 res -> evals d (EIfLet p s t e) en res.
+Proof.
+  intros [f1 H1] Hp [f2 H2]. fuel (max f1 f2). simpl. rewrite H1 by lia. simpl. rewrite Hp. apply H2; lia.
 Qed.
 
 (* ---- calls of user functions ---- *)
